@@ -278,6 +278,11 @@ impl<'a> QueryExecutor<'a> {
 
                 // Find ops which produce a streamable input to this op and add them to this stage
                 for input in op.inputs() {
+                    // A scalar is a single value, not a stream of chunks. A constant that is shared by several
+                    // operators (common subexpression elimination) must not pull them into one streaming stage.
+                    if self.buffer_provider.all_buffers[input.i].tag.is_scalar() {
+                        continue;
+                    }
                     if op.can_stream_input(input.i) {
                         'l1: for &p in &producers[input.i] {
                             if visited[p] || !self.ops[p].can_stream_output(input.i) {
@@ -314,6 +319,9 @@ impl<'a> QueryExecutor<'a> {
                 }
                 // Find consumers that can be streamed to
                 for output in op.outputs() {
+                    if self.buffer_provider.all_buffers[output.i].tag.is_scalar() {
+                        continue;
+                    }
                     if op.can_stream_output(output.i) && !block_output[current] {
                         'l2: for &consumer in &consumers[output.i] {
                             if visited[consumer] || !self.ops[consumer].can_stream_input(output.i) {
